@@ -179,3 +179,85 @@ pub fn run(desc: &Value, ctx: &Ctx) -> CaseOut {
     out.fp = fp.hex();
     out
 }
+
+// ------------------------------------------------------------------------------------------------
+// part (b): the committed reference corpus, written by the pinned version, read with the current reader
+
+pub fn corpus_dir() -> std::path::PathBuf {
+    std::path::PathBuf::from(std::env::var("JBK_CORPUS").unwrap_or_else(|_| "/verif/corpus".into()))
+}
+
+pub fn corpus_entries() -> Vec<String> {
+    let mut v: Vec<String> = std::fs::read_dir(corpus_dir())
+        .map(|rd| rd.filter_map(|e| e.ok()).filter(|e| e.path().join("expected.json").exists()).map(|e| e.file_name().to_string_lossy().into_owned()).collect())
+        .unwrap_or_default();
+    v.sort();
+    v
+}
+
+pub fn count_b(_tier: Tier) -> u64 {
+    corpus_entries().len() as u64
+}
+
+pub fn gen_b(_seed: u64, _tier: Tier, k: u64) -> Value {
+    json!({"corpus_entry": corpus_entries().get(k as usize).cloned().unwrap_or_default()})
+}
+
+pub fn run_b(desc: &Value, ctx: &Ctx) -> CaseOut {
+    let mut out = CaseOut::new();
+    let name = jstr(desc, "corpus_entry").to_string();
+    let dir = corpus_dir().join(&name);
+    let mut fp = Fp::new();
+    fp.s("corpus").s(&name);
+    out.fp = fp.hex();
+    out.nontrivial = true;
+    let case: ContCase = match std::fs::read_to_string(dir.join("case.json")).ok().and_then(|t| serde_json::from_str::<Value>(&t).ok()) {
+        Some(v) => ContCase::from_json(&v),
+        None => {
+            out.inconclusive(format!("corpus entry {name}: case.json unreadable"));
+            return out;
+        }
+    };
+    let expected: crate::dump::Dump = match std::fs::read_to_string(dir.join("expected.json")).ok().and_then(|t| serde_json::from_str(&t).ok()) {
+        Some(v) => v,
+        None => {
+            out.inconclusive(format!("corpus entry {name}: expected.json unreadable"));
+            return out;
+        }
+    };
+    // work on a copy: the reader must never modify the corpus, and locations are relative to the directory
+    let scratch = Scratch::new(&ctx.work, "corpus");
+    for f in list_files(&dir) {
+        let _ = std::fs::copy(&f, scratch.dir.join(f.file_name().unwrap()));
+    }
+    let mut plan = crate::dump::plan_for(&case, None);
+    plan.checks = true;
+    for entry in ["c.jbk", "all.jbk"] {
+        let p = scratch.dir.join(entry);
+        if !p.exists() {
+            continue;
+        }
+        out.obs.inc("corpus_files_read");
+        let got = crate::dump::dump_container(&p, &plan);
+        out.obs.add("items_compared", expected.len() as u64);
+        let diffs = crate::dump::diff(&expected, &got, |k| expected.contains_key(k));
+        for d in diffs.iter().take(3) {
+            let item = d.split(':').next().unwrap_or("").split('/').next().unwrap_or("").to_string();
+            let outcome = if d.contains(": err:") { "err" } else if d.contains(": panic:") { "panic" } else { "differs" };
+            out.violate(
+                json!({"kind": "corpus", "entry": name, "file": entry, "item": item, "outcome": outcome, "profile": profile()}),
+                format!("C14: reference file {name}/{entry} (written by the pinned version) no longer reads to its committed content: {d}"),
+                json!({"differences": diffs.len()}),
+            );
+        }
+        match got.get("check/container").map(|s| s.as_str()) {
+            Some("ok:true") => out.obs.inc("corpus_checks_true"),
+            other => out.violate(
+                json!({"kind": "corpus-check", "entry": name, "file": entry, "profile": profile()}),
+                format!("C14: reference file {name}/{entry}: Container::check() = {other:?}"),
+                json!({}),
+            ),
+        }
+    }
+    out
+}
